@@ -43,13 +43,13 @@ MUTATORS = {
 }
 # entry API (through PrefixMap::entry): kind, present answer, absent answer, payload stored when absent
 ENTRY = {
-    "Entry::insert": (None, "insert", "Some(?{T}[{k}].value.some)", "None", "m.v"),
-    "Entry::or_insert": (None, "keep", "&mut {T}[{k}].value.some", "&mut {T}[{new}].value.some", "m.default"),
+    "Entry::insert": (None, "insert", "Some(?{T}[{k}].value.some)", "None", "m.value"),
+    "Entry::or_insert": (None, "keep", "&mut {T}[{k}].value.some", "&mut {T}[{new}].value.some", "m.value"),
     "Entry::or_insert_with": (None, "keep", "&mut {T}[{k}].value.some", "&mut {T}[{new}].value.some", "cb"),
     "Entry::or_default": (None, "keep", "&mut {T}[{k}].value.some", "&mut {T}[{new}].value.some", "default()"),
     "Entry::get": (None, "observe", "Some(&{T}[{k}].value.some)", "None", None),
     "Entry::get_mut": (None, "observe", "Some(&mut {T}[{k}].value.some)", "None", None),
-    "VacantEntry::insert": ("Vacant", "keep", None, "&mut {T}[{new}].value.some", "m.default"),
+    "VacantEntry::insert": ("Vacant", "keep", None, "&mut {T}[{new}].value.some", "m.value"),
     "VacantEntry::insert_with": ("Vacant", "keep", None, "&mut {T}[{new}].value.some", "cb"),
     "VacantEntry::default": ("Vacant", "keep", None, "&mut {T}[{new}].value.some", "default()"),
     "OccupiedEntry::get": ("Occupied", "observe", "&{T}[{k}].value.some", None, None),
